@@ -1,0 +1,26 @@
+//go:build verif
+
+package dispatcher
+
+import (
+	"net/netip"
+
+	"github.com/scionproto/scion/pkg/slayers"
+)
+
+// Verification hooks (build tag `verif` only) for the /verif harness: export of
+// Server.processMsgNextHop and read access to the layers it decoded. No behaviour is added.
+
+// VerifProcessMsgNextHop is Server.processMsgNextHop.
+func (s *Server) VerifProcessMsgNextHop(
+	buf []byte,
+	underlay netip.Addr,
+	prevHop netip.AddrPort,
+) ([]byte, netip.AddrPort, error) {
+	return s.processMsgNextHop(buf, underlay, prevHop)
+}
+
+// VerifLayers returns the SCION and SCMP layers as the last call left them.
+func (s *Server) VerifLayers() (*slayers.SCION, *slayers.SCMP) {
+	return &s.scionLayer, &s.scmpLayer
+}
